@@ -54,7 +54,11 @@ impl Monitor for C11 {
             let o = &outs[k - 1];
             if aggregate {
                 if let Some(t) = &o.out { if !same_rows(t, &shown, 0.0) { changes += 1; } shown = t.clone(); }
-                if !identical_rows(&shown, &batch) {
+                // bit for bit - except group-key columns: which of two equal key values (-0.0 / 0.0) represents the group depends on
+                // which aggregate first had a value for it (open finding C04), so keys are compared by value
+                let key_cols: Vec<usize> = match &p.stmt { sqlgrep::model::Statement::Aggregate(a) => a.aggregates.iter().enumerate().filter(|(_, x)| matches!(x.aggregate, sqlgrep::model::Aggregate::GroupKey(_))).map(|(i, _)| i).collect(), _ => vec![] };
+                let same_tables = shown.rows.len() == batch.rows.len() && shown.rows.iter().zip(batch.rows.iter()).all(|(x, y)| x.len() == y.len() && x.iter().zip(y.iter()).enumerate().all(|(ci, (a, b2))| if key_cols.contains(&ci) { a.same(b2, 0.0) } else { a.identical(b2) }));
+                if !same_tables {
                     let kind = if shown.rows.len() < batch.rows.len() { "rows-missing" } else if shown.rows.len() > batch.rows.len() { "rows-extra" } else { "cells-differ" };
                     vs.push(Violation::new(format!("incremental|{}|{}|{}", feat, if k == 1 { "first-refresh" } else { "later-refresh" }, kind), format!("{:?} after line {} of {}: shown {} ; batch over that prefix {}", base.sql, k, base.lines.len(), show_rows(&shown, 4), show_rows(&batch, 4))));
                     break;
